@@ -121,7 +121,9 @@ def check(ctx):
         for n in ast.walk(fn.node):
             if isinstance(n, ast.Subscript) and canon(n.value) in ("LOG.X", f"{fs.p_logger}.X") and isinstance(n.slice, ast.Slice):
                 up = n.slice.upper
-                okc = up is not None and canon(up) in ("(1 + X_max_idx)", "(1 + LOG.X_max_idx)", "(1 + LOG.Xn)") and n.slice.lower is None
+                from .common import deref_canon
+
+                okc = up is not None and (canon(up) in ("(1 + X_max_idx)", "(1 + LOG.X_max_idx)", "(1 + LOG.Xn)") or deref_canon(prog, fn, up) in ("(1 + LOG.X_max_idx)", "(1 + LOG.Xn)", f"(1 + {fs.p_logger}.X_max_idx)", f"(1 + {fs.p_logger}.Xn)")) and n.slice.lower is None
                 ctx.check(okc, fn, n, f"compared against log rows [:{canon(up)}]", "the evaluated-row comparison does not cover all filled log rows", construct=f"log slice {canon(n.slice)}")
 
     # ------------------------------------------------------------------ R3
